@@ -164,7 +164,7 @@ def main(argv=None):
                 confirmed = _rp.replay_obligation(r)
             except Exception:
                 confirmed = dict(confirmed=False, detail='replay machinery failed: ' + traceback.format_exc()[-400:])
-            payload = dict(property=pid, source='pyvc', obligation=r['name'], obligation_class=cls,
+            payload = dict(property=pid, source='pyvc', family=r.get('family'), obligation=r['name'], obligation_class=cls,
                            function=r['function'], line=r['lineno'], solver=r['solver'], model=r['model'],
                            replay=confirmed, repo=REPO,
                            rerun='./check %s --replay <this file>' % pid)
